@@ -77,16 +77,19 @@ Definition all_below (n : nat) (f : Z -> bool) : bool := all_from n 0 f.
 (* the shifted-year form of date validity: yoe is the year-of-era of the shifted year *)
 Definition valid_in_era (yoe m d : Z) : bool := valid_date (yoe + shift m) m d.
 
-Definition era_check_days : bool :=
-  all_below (Z.to_nat DAYS_PER_ERA) (fun doe =>
-    let '(yoe, m, d) := civil_of_doe doe in
-    (0 <=? yoe) && (yoe <? 400) && valid_in_era yoe m d && (doe_of yoe m d =? doe)).
+Definition day_ok (doe : Z) : bool :=
+  let '(yoe, m, d) := civil_of_doe doe in
+  (0 <=? yoe) && (yoe <? 400) && valid_in_era yoe m d && (doe_of yoe m d =? doe).
 
+Definition date_ok (yoe m d : Z) : bool :=
+  if valid_in_era yoe m d then
+    let doe := doe_of yoe m d in
+    (0 <=? doe) && (doe <? DAYS_PER_ERA) &&
+    (let '(yoe', m', d') := civil_of_doe doe in (yoe' =? yoe) && (m' =? m) && (d' =? d))
+  else true.
+
+(* every day of one era; every (shifted year of era, month 1..12, day 1..31) *)
+Definition era_check_days : bool := all_below (Z.to_nat DAYS_PER_ERA) day_ok.
 Definition era_check_dates : bool :=
   all_below 400 (fun yoe => all_below 12 (fun m0 => all_below 31 (fun d0 =>
-    let m := m0 + 1 in let d := d0 + 1 in
-    if valid_in_era yoe m d then
-      let doe := doe_of yoe m d in
-      (0 <=? doe) && (doe <? DAYS_PER_ERA) &&
-      (let '(yoe', m', d') := civil_of_doe doe in (yoe' =? yoe) && (m' =? m) && (d' =? d))
-    else true))).
+    date_ok yoe (m0 + 1) (d0 + 1)))).
